@@ -8,7 +8,7 @@ import os
 
 from ..common import SPEC, Scratch, rng, MachineryError, B
 from ..report import Report
-from .. import tlc, bf3lib as L, bec2lib as B2, bec2gen as G
+from .. import tlc, bf3lib as L, bec2lib as B2, bec2gen as G, errpaths as E
 from ..oracle_openssl import Oracle
 from . import bf3common as C3, bec2common as C
 
@@ -77,6 +77,9 @@ def run(tier):
         for n in (7, 16, 20):
             f = L.Bf3File({}, [L.mk_comp({0xC2: b"\x02"}, L.gen_payload(r, n), None, True), L.gen_plain_comp(r)])
             L.rec_to_binary(rec, f, 5, L.gen_key(r))
+        # error-path histories (a refused serialisation, then the repaired object and an unrelated one); large payloads
+        E.bf3_failed_then_good(rec, r, wd, 6 if tier == "quick" else 60, enc=True)
+        E.bf3_large(rec, r, wd, (300, 4128) if tier == "quick" else (257, 300, 1000, 4096, 4128, 8200), read=False)
         # BEC2 framing: header + body at offset = header length
         rcpts = G.Recipients(orc, r, 1)
         for j in range(60 if tier == "quick" else 300):
